@@ -14,17 +14,19 @@ func strictConcRuns(tier string) int {
 	if tier == "thorough" {
 		return 400
 	}
-	return 30
+	return 42
 }
 
-var strictConcStates = []string{oDown, oStall, oHTTP500, oGarbage, oTrunc, oHTTP404}
+// "switch-fails": the origin delivers a good list, but the store cannot switch to it (the live store's Update returns an
+// error): the distribution point's CRL is still not in force
+var strictConcStates = []string{oDown, oStall, oHTTP500, oGarbage, oTrunc, oHTTP404, "switch-fails"}
 
 func runStrictConcurrent(h *Harness, j int) {
 	tp := h.Tape
 	sc := h.R.Scenario
 	backend := []string{"memory", "disk"}[j%2]
 	state := strictConcStates[(j/2)%len(strictConcStates)]
-	fetch := []string{"", "fetch_actively", "fetch_background"}[(j/12)%3]
+	fetch := []string{"", "fetch_actively", "fetch_background"}[(j/14)%3]
 	nh := 2 + tp.Int(4)
 	pre := Pick(tp, 0, 50, 200, 400)
 	h.S.pPre = uint64(pre) * (1 << 32) / 1000
@@ -69,12 +71,34 @@ func runStrictConcurrent(h *Harness, j int) {
 	}
 	// (a) the origin fails: nothing has ever been loaded for this distribution point
 	loc.State = state
+	var ff *FaultyFactory
+	if state == "switch-fails" {
+		loc.State = oGood
+		if repo := n.Repo(); repo != nil {
+			ff = &FaultyFactory{Inner: repo.Factory}
+			h.Call(n, "wrap-factory", func() { repo.Factory = ff })
+			ff.SetPlan(func(m string, temporary bool) error {
+				if m == "Update" && !temporary {
+					return ErrIO
+				}
+				return nil
+			})
+		}
+	}
 	a := start(nh, "fail")
 	wait(a)
+	if ff != nil {
+		h.Settle(30 * time.Second)
+		h.Quiesce()
+		ff.SetPlan(nil)
+		if ff.Fired > 0 {
+			h.Probe("strict-concurrent:store-switch-failed")
+		}
+	}
 	for i, c := range a {
 		h.R.Checks++
 		if c.hs.Err == nil {
-			h.Violation("C10.strict-accept", "concurrent-first-load:"+state, "strict: handshake %d of %d overlapping handshakes for one distribution point was accepted although its origin only ever answered '%s' and no CRL of it was ever loaded (fetch mode %q, backend %s)", i+1, nh, state, fetch, backend)
+			h.Violation("C10.strict-accept", "concurrent-first-load:"+state, "strict: handshake %d of %d overlapping handshakes for one distribution point was accepted although its origin only ever answered '%s' and no CRL of it ever came into force (fetch mode %q, backend %s)", i+1, nh, state, fetch, backend)
 			break
 		}
 	}
